@@ -190,6 +190,12 @@ Definition vstep (s : store) (o : vop) : store :=
   | VDel i => sset s i None
   end.
 
+(* `Element& e = slot[i].toElement();` without a write: the value becomes an element if it was none; said
+   with the existing alphabet, this is renaming the element to the name it has *)
+Definition elem_name (n : node) : bytes := match as_elem n with N _ _ nm _ _ => nm | _ => [] end.
+Definition touch_op (s : store) (i : nat) : vop :=
+  VName i (match sget s i with Some v => elem_name v | None => [] end).
+
 (* the slot an operation writes; every other slot must keep its value *)
 Definition target (o : vop) : nat :=
   match o with
